@@ -345,6 +345,7 @@ impl FrameDecoder {
             vprintln!("Output: {}", state.decoder_scratch.buffer.len());
 
             if block_header.last_block {
+                vhit!(blk_last);
                 state.frame_finished = true;
                 if state.frame_header.descriptor.content_checksum_flag() {
                     let mut chksum = [0u8; 4];
@@ -503,6 +504,7 @@ impl FrameDecoder {
                     state.block_counter += 1;
 
                     if block_header.last_block {
+                        vhit!(blk_last);
                         state.frame_finished = true;
                         if state.frame_header.descriptor.content_checksum_flag() {
                             //if there are enough bytes handle this here. Else the block at the start of this function will handle it at the next call
@@ -607,6 +609,78 @@ impl FrameDecoder {
                 Err(e)
             }
         }
+    }
+}
+
+#[cfg(feature = "verif_hooks")]
+impl FrameDecoder {
+    /// Verification hook: number of decoded bytes currently held in the decode buffer
+    pub fn verif_buffer_len(&self) -> usize {
+        match &self.state {
+            None => 0,
+            Some(s) => s.decoder_scratch.buffer.len(),
+        }
+    }
+
+    /// Verification hook: (pointer, capacity, head, tail) of the ring buffer
+    pub fn verif_ring_state(&self) -> (usize, usize, usize, usize) {
+        match &self.state {
+            None => (0, 0, 0, 0),
+            Some(s) => s.decoder_scratch.buffer.verif_ring_state(),
+        }
+    }
+
+    /// Verification hook: window size of the current frame
+    pub fn verif_window_size(&self) -> usize {
+        match &self.state {
+            None => 0,
+            Some(s) => s.decoder_scratch.buffer.window_size,
+        }
+    }
+
+    /// Verification hook: fingerprint over all state that can influence how the rest of the current frame is decoded
+    pub fn verif_fingerprint(&self) -> u64 {
+        let mut h = crate::verif::Fnv::default();
+        let Some(s) = &self.state else {
+            return h.0;
+        };
+        let scratch = &s.decoder_scratch;
+        for o in scratch.offset_hist {
+            h.u64(u64::from(o));
+        }
+        for (table, rle) in [
+            (&scratch.fse.literal_lengths, scratch.fse.ll_rle),
+            (&scratch.fse.offsets, scratch.fse.of_rle),
+            (&scratch.fse.match_lengths, scratch.fse.ml_rle),
+        ] {
+            h.u64(u64::from(table.accuracy_log));
+            h.u64(table.decode.len() as u64);
+            for e in &table.decode {
+                h.u64(u64::from(e.base_line));
+                h.bytes(&[e.num_bits, e.symbol]);
+            }
+            h.u64(match rle {
+                None => 256,
+                Some(x) => u64::from(x),
+            });
+        }
+        scratch.huf.table.verif_fingerprint(&mut h);
+        scratch.buffer.verif_fingerprint(&mut h);
+        h.u64(s.frame_header.descriptor.0.into());
+        h.u64(s.frame_header.frame_content_size());
+        h.u64(u64::from(s.frame_header.dictionary_id().unwrap_or(0)));
+        h.u64(s.frame_finished as u64);
+        h.u64(s.block_counter as u64);
+        h.u64(s.bytes_read_counter);
+        h.u64(match s.check_sum {
+            None => 1 << 40,
+            Some(x) => u64::from(x),
+        });
+        h.u64(match s.using_dict {
+            None => 1 << 40,
+            Some(x) => u64::from(x),
+        });
+        h.0
     }
 }
 
